@@ -7,6 +7,7 @@ CONV = "xsdata.formats.converter"
 def register(db):
     P = ["C05"]
     register_qname_serialize(db)
+    register_bytes_deserialize(db)
     # ------------------------------------------------------------------ bool
     db.add(Contract(
         f"{CONV}:BoolConverter.serialize",
@@ -157,4 +158,53 @@ def register_qname_serialize(db):
         f"{CONV}:QNameConverter.serialize", variant="without-a-map",
         params={"self": f"obj:{CONV}:QNameConverter", "value": qname_value, "ns_map": None}, kwargs={"known": {}, "open": False},
         ensures=[("clark-form", "result == value.text")], raises={}, returns="str", properties=["C05"],
+    ))
+
+
+def register_bytes_deserialize(db):
+    """BytesConverter.deserialize: whatever the text, only ConverterError leaves the converter - the standard-library
+    decoders are assumed to raise ValueError (a str with non-ASCII characters) or binascii.Error (anything else that is
+    not base16 / base64); white space is removed before decoding; an unknown format is a ConverterError."""
+    from pyvc import builtins_calls as bc
+    from pyvc.contracts import Contract, pure_result
+    from pyvc.values import Opaque
+    CONV = "xsdata.formats.converter"
+
+    def decoder(name):
+        def h(ex, st, args, kwargs):
+            st.trace.append(("call", name, None, tuple(args), tuple(sorted(kwargs.items(), key=lambda kv: kv[0]))))
+            for exc in ("ValueError", "binascii.Error"):
+                yield ex.raise_(st.fork(), exc)
+            yield st, Opaque("bytes")
+        return h
+
+    def re_sub(ex, st, args, kwargs):
+        pattern, repl, text = args[0], args[1], args[2]
+        if bc.is_sym(text) and not bc.is_sym(pattern) and not bc.is_sym(repl):
+            yield st, pure_result(ex, st, "re.sub", "str", [pattern, repl, text])
+        elif not bc.is_sym(text) and not bc.is_sym(pattern) and not bc.is_sym(repl):
+            import re
+            yield st, re.sub(pattern, repl, text)
+        else:
+            raise bc.U("re.sub with a symbolic pattern / replacement")
+
+    bc.FUNCS["binascii.unhexlify"] = decoder("binascii.unhexlify")
+    bc.FUNCS["base64.b64decode"] = decoder("base64.b64decode")
+    bc.FUNCS.setdefault("re.sub", re_sub)
+    db.inline.add(f"{CONV}:Converter.validate_input_type")
+    WS_FREE = "uf('re.sub', 'str', '\\\\s+', '', value)"
+    for fmt, fn in (("base16", "binascii.unhexlify"), ("base64", "base64.b64decode")):
+        db.add(Contract(
+            f"{CONV}:BytesConverter.deserialize", variant=fmt,
+            params={"self": f"obj:{CONV}:BytesConverter", "value": "str"}, kwargs={"known": {"format": "str|None"}, "open": False},
+            requires=[f"kwargs.get('format') == '{fmt}'"],
+            ensures=[("decoded-once-after-white-space-is-removed", f"called('{fn}') == 1 and call_arg('{fn}', 0) == {WS_FREE}")],
+            raises={"ConverterError": True}, properties=["C05", "C15"],
+            note="assumed: the standard-library decoders raise only ValueError / binascii.Error",
+        ))
+    db.add(Contract(
+        f"{CONV}:BytesConverter.deserialize", variant="unknown-format",
+        params={"self": f"obj:{CONV}:BytesConverter", "value": "str"}, kwargs={"known": {"format": "str|None"}, "open": False},
+        requires=["kwargs.get('format') != 'base16'", "kwargs.get('format') != 'base64'"],
+        ensures=[("never-returns", "False")], raises={"ConverterError": True}, returns="noreturn", properties=["C05", "C15"],
     ))
